@@ -189,7 +189,9 @@ def enum_nets(n_inputs, k_gates, alphabet, variants=output_variants):
 def random_net(r, max_inputs=4, max_gates=8, families=None):
     """Seeded random circuit: all 18 gate types, n-ary arity 2..4, repeated operands, constants (sometimes with
     operands), L*/R* chains, dead logic, unused inputs, outputs that are inputs / repeated / absent, permuted
-    storage order, sometimes a block.  `families` biases the type alphabet (mixed-family chains)."""
+    storage order, sometimes a block.  `families` biases the type alphabet (mixed-family chains); the family
+    'parity-dup' (and, less often, every family) produces n-ary gates with partly repeated operands - T(x,x,y),
+    T(x,y,x,y) - followed by a gate of the same type over the de-duplicated operand set."""
     n = r.randint(0, max_inputs)
     k = r.randint(0, max_gates)
     fam = families if families is not None else r.choice(['all', 'all', 'unary-heavy', 'neg-only', 'buf-only', 'dup-heavy', 'parity-dup'])
